@@ -96,9 +96,10 @@ class ChkIo:
         maybe_chk_section_name_bytes = chk_byte_stream.read(_CHK_SECTION_NAME_NUM_BYTES)
         while maybe_chk_section_name_bytes != b"":
             # u32 Name - A 4-byte string uniquely identifying that chunk's purpose.
+            # surrogateescape keeps name bytes that are not valid text recoverable
             maybe_chk_section_name = struct.unpack("4s", maybe_chk_section_name_bytes)[
                 0
-            ].decode("utf-8")
+            ].decode("utf-8", errors="surrogateescape")
             # u32 Size - The size, in bytes, of the chunk (not including this header)
             chk_section_size_in_bytes = struct.unpack(
                 "I", chk_byte_stream.read(_CHK_SECTION_TOTAL_BYTES_NUM_BYTES)
@@ -121,7 +122,7 @@ class ChkIo:
         if not ChkSectionName.contains(maybe_chk_section_name):
             self.log.warning(
                 f"Unknown CHK section name not found in ChkSectionName enum: "
-                f"{maybe_chk_section_name}.  "
+                f"{maybe_chk_section_name!r}.  "
                 f"Will decode as unknown section."
             )
             return self._decode_unknown_chk_section(
